@@ -288,7 +288,7 @@ def translation_only(tr, step):
 
 def conclude(rep, traces):
     clean = [{'dim': t['dim'], 'events': [{k: v for k, v in e.items() if not k.startswith('_')} for e in t['events']]} for t in traces]
-    verdicts, st, trn = tlc.validate_traces('DataSetTrace', clean, 'c18', chunk=1500)
+    verdicts, st, trn = tlc.validate_traces('DataSetTrace', clean, 'c18', chunk=1500, unevaluable='P_SpecEvaluable')
     rep.cov['states'] += st
     rep.cov['transitions'] += trn
     rep.cov['traces_validated_against_impl'] += len(traces)
